@@ -48,6 +48,12 @@ def check_stateless(ctx, roots, rule="STATELESS", mutation_only=False):
     mutated = set()
     for fi in model.all_functions():
         local = {x.id for x in ast.walk(fi.node) if isinstance(x, ast.Name) and isinstance(x.ctx, ast.Store)} | set(fi.all_params)
+        # local names that are plain aliases of a module-level container (`table = _TABLE`): writing through them writes the module's object
+        alias = {}
+        for st_ in ast.walk(fi.node):
+            if isinstance(st_, ast.Assign) and len(st_.targets) == 1 and isinstance(st_.targets[0], ast.Name) and isinstance(st_.value, ast.Name) \
+                    and st_.value.id not in local and (fi.module.name, st_.value.id) in state:
+                alias[st_.targets[0].id] = st_.value.id
         for n in ast.walk(fi.node):
             base = None
             if isinstance(n, ast.Call) and isinstance(n.func, ast.Attribute) and n.func.attr in MUTATORS and isinstance(n.func.value, ast.Name):
@@ -58,6 +64,8 @@ def check_stateless(ctx, roots, rule="STATELESS", mutation_only=False):
                     r = r.value
                 if isinstance(r, ast.Name):
                     base = r.id
+            if base in alias:
+                mutated.add((fi.module.name, alias[base]))
             if base and base not in local and (fi.module.name, base) in state:
                 mutated.add((fi.module.name, base))
     cg = CallGraph(model)
